@@ -100,6 +100,18 @@ def generate(repo, ws, write_if_changed):
              dict(kind="trait", name="HeaderRequestExt"),
              dict(kind="impl", impl=r"impl HeaderRequestExt for HeaderRequest"),
          ]))
+    emit("in_memory_store_c20.rs", slice_file(repo, "node/src/store/in_memory_store.rs", [
+        dict(kind="struct", name="InMemoryStoreInner"),
+        dict(kind="fn", name="get_head_height", impl=r"^impl InMemoryStoreInner$", wrap="impl InMemoryStoreInner"),
+        dict(kind="fn", name="contains_hash", impl=r"^impl InMemoryStoreInner$", wrap="impl InMemoryStoreInner"),
+        dict(kind="fn", name="get_by_hash", impl=r"^impl InMemoryStoreInner$", wrap="impl InMemoryStoreInner"),
+        dict(kind="fn", name="contains_height", impl=r"^impl InMemoryStoreInner$", wrap="impl InMemoryStoreInner"),
+        dict(kind="fn", name="get_by_height", impl=r"^impl InMemoryStoreInner$", wrap="impl InMemoryStoreInner"),
+        dict(kind="fn", name="insert", impl=r"^impl InMemoryStoreInner$", wrap="impl InMemoryStoreInner"),
+        dict(kind="fn", name="verify_against_neighbours", impl=r"^impl InMemoryStoreInner$", wrap="impl InMemoryStoreInner"),
+        dict(kind="fn", name="mark_as_sampled", impl=r"^impl InMemoryStoreInner$", wrap="impl InMemoryStoreInner"),
+        dict(kind="fn", name="remove_height", impl=r"^impl InMemoryStoreInner$", wrap="impl InMemoryStoreInner"),
+    ]))
     emit("extended_header_c02.rs", slice_file(repo, "types/src/extended_header.rs", [
         dict(kind="const", name="VERIFY_CLOCK_DRIFT"),
         dict(kind="fn", name="verify", impl=r"^impl ExtendedHeader$", wrap="impl ExtendedHeader"),
